@@ -283,7 +283,11 @@ func VHRingStep() {
 	} else {
 		ra, rb = s.mk(rn, "rv")
 	}
-	s.compare("pre-state")
+	if rn != 0 || vChoose("touchZeroRing", 2) == 1 {
+		s.compare("pre-state") // (comparing calls Len/Next: on a zero ring that initialises it)
+	} else {
+		vCover("ring: operation is the first call on an untouched zero ring")
+	}
 	n := vRange("n", -vParam("CNT"), vParam("CNT"))
 	switch vChoose("op", 6) {
 	case 0:
